@@ -113,6 +113,11 @@ def main(tier, replay=None):
         camp.run(mapgen.header(kt, vt, list(range(0, 16 * 55, 55)), [7, 8, 9]),
                  [mapgen.random_history(rng, "Tree", 16, 3, rng.choice([60, 200]) if quick else rng.choice([200, 1000]))
                   for _ in range(max(4, nexec // 4))], "random/%s-%s" % (kt, vt))
+    # a plain key type WITHOUT a Cmp instance, wider than a word (ordered by the default byte-wise comparison): keys agreeing in their
+    # first 8 bytes are different keys (0..63: hi = k >> 2, lo = k & 3 - byte order is numeric order in this range)
+    camp.run(mapgen.header("Pair16", "Int", sorted(list(range(0, 64, 4)) + [1, 2, 3, 5, 6, 41, 42, 43]), [7, 8, 9]),
+             [mapgen.random_history(rng, "Tree", 24, 3, rng.choice([60, 200]) if quick else rng.choice([200, 1000]))
+              for _ in range(max(4, nexec // 4))], "random/Pair16-Int")
     # large universes, sampled projection: height bound and balance at scale
     big = 600 if quick else 4000
     L = ["reset", "new 1 Tree"]
@@ -132,6 +137,7 @@ def main(tier, replay=None):
     L.append("snap 1")
     camp.run(["light 6"] + mapgen.header("Int", "Int", list(range(1000, 1000 + 3 * big, 3)), [1, 2, 3]), [L], "large/Int", sample=False)
 
+    camp.run(mapgen.header("Int", "Int", [1, 2], [1]), [["reset", "scale R %d 0" % n] for n in ((100000,) if quick else (100000, 3000000))], "scale", sample=False)
     chk.cov["rule"] = ("an execution = one history of public Tree calls on the real library; distinct = different operation "
                        "sequence or key type; every event carries len, iteration both ways, get+mem of every key of the "
                        "universe (sampled for the large universe) and the white-box node dump; judged by TLC (MapTrace)")
